@@ -75,6 +75,30 @@ def _valid(e, cond):
     return s.check() == z3.unsat
 
 
+def compare_sections(e, g, h, tag):
+    gf, hf = g.fields, h.fields
+    e.prove([n.fields['name'] for n in hf['nodelist']] == [n.fields['name'] for n in gf['nodelist']] and
+            all(veq(e, a.fields['pos'], b.fields['pos']) for a, b in zip(gf['nodelist'], hf['nodelist'])), 'post:nodes_preserved_in_order' + tag)
+    okc = [c.fields['name'] for c in hf['columnlist']] == [c.fields['name'] for c in gf['columnlist']]
+    for a, b in zip(gf['columnlist'], hf['columnlist']):
+        okc = okc and [n.fields['name'] for n in a.fields['node']] == [n.fields['name'] for n in b.fields['node']] and \
+            a.fields['centre_specified'] == b.fields['centre_specified'] and veq(e, a.fields['centre'], b.fields['centre'])
+    e.prove(okc, 'post:columns_node_order_and_specified_centre_preserved' + tag)
+    e.prove([tuple(c.fields['name'] for c in k.fields['column']) for k in hf['connectionlist']] ==
+            [tuple(c.fields['name'] for c in k.fields['column']) for k in gf['connectionlist']], 'post:connections_preserved_in_order' + tag)
+    okl = [l.fields['name'] for l in hf['layerlist']] == [l.fields['name'] for l in gf['layerlist']]
+    for a, b in zip(gf['layerlist'], hf['layerlist']):
+        okl = okl and all(_valid(e, L.equals(e, a.fields[k], b.fields[k])) for k in ('bottom', 'centre', 'top'))
+    e.prove(okl, 'post:layers_preserved' + tag)
+    oks = all(a.fields['default_surface'] == b.fields['default_surface'] and
+              (a.fields['default_surface'] or _valid(e, L.equals(e, a.fields['_surface'], b.fields['_surface'])))
+              for a, b in zip(gf['columnlist'], hf['columnlist']))
+    e.prove(oks, 'post:non_default_surface_elevations_preserved' + tag)
+    okw = [w.fields['name'] for w in hf['welllist']] == [w.fields['name'] for w in gf['welllist']] and \
+        all(len(a.fields['pos']) == len(b.fields['pos']) and all(veq(e, p, q) for p, q in zip(a.fields['pos'], b.fields['pos'])) for a, b in zip(gf['welllist'], hf['welllist']))
+    e.prove(okw, 'post:well_tracks_preserved' + tag)
+
+
 def p_sections(e, feet):
     tag = '[feet]' if feet else '[metres]'
     from fractions import Fraction
@@ -105,28 +129,65 @@ def p_sections(e, feet):
             e.fail('post:read_accepts_what_write_produced' + tag, 'raises %s: %s' % (ex.cls, ex.msg))
             return
         e.prove(not tape.errors, 'post:read_accepts_what_write_produced' + tag)
-        gf, hf = g.fields, h.fields
-        e.prove([n.fields['name'] for n in hf['nodelist']] == [n.fields['name'] for n in gf['nodelist']] and
-                all(veq(e, a.fields['pos'], b.fields['pos']) for a, b in zip(gf['nodelist'], hf['nodelist'])), 'post:nodes_preserved_in_order' + tag)
-        okc = [c.fields['name'] for c in hf['columnlist']] == [c.fields['name'] for c in gf['columnlist']]
-        for a, b in zip(gf['columnlist'], hf['columnlist']):
-            okc = okc and [n.fields['name'] for n in a.fields['node']] == [n.fields['name'] for n in b.fields['node']] and \
-                a.fields['centre_specified'] == b.fields['centre_specified'] and veq(e, a.fields['centre'], b.fields['centre'])
-        e.prove(okc, 'post:columns_node_order_and_specified_centre_preserved' + tag)
-        e.prove([tuple(c.fields['name'] for c in k.fields['column']) for k in hf['connectionlist']] ==
-                [tuple(c.fields['name'] for c in k.fields['column']) for k in gf['connectionlist']], 'post:connections_preserved_in_order' + tag)
-        okl = [l.fields['name'] for l in hf['layerlist']] == [l.fields['name'] for l in gf['layerlist']]
-        for a, b in zip(gf['layerlist'], hf['layerlist']):
-            okl = okl and all(_valid(e, L.equals(e, a.fields[k], b.fields[k])) for k in ('bottom', 'centre', 'top'))
-        e.prove(okl, 'post:layers_preserved' + tag)
-        oks = all(a.fields['default_surface'] == b.fields['default_surface'] and
-                  (a.fields['default_surface'] or _valid(e, L.equals(e, a.fields['_surface'], b.fields['_surface'])))
-                  for a, b in zip(gf['columnlist'], hf['columnlist']))
-        e.prove(oks, 'post:non_default_surface_elevations_preserved' + tag)
-        okw = [w.fields['name'] for w in hf['welllist']] == [w.fields['name'] for w in gf['welllist']] and \
-            all(len(a.fields['pos']) == len(b.fields['pos']) and all(veq(e, p, q) for p, q in zip(a.fields['pos'], b.fields['pos'])) for a, b in zip(gf['welllist'], hf['welllist']))
-        e.prove(okw, 'post:well_tracks_preserved' + tag)
+        compare_sections(e, g, h, tag)
     e.explore(prog, 'sections')
+
+
+def p_whole_file(e, arg):
+    """The real mulgrid.write() and mulgrid.read() drivers over the record tape: header options,
+    every section, and the derived block and connection name lists survive, and writing the re-read
+    geometry produces the same records."""
+    feet, atm, order = arg
+    tag = '[%s,atm%d,order=%s]' % ('feet' if feet else 'metres', atm, order)
+    from fractions import Fraction
+    scale = Fraction('0.3048') if feet else 1
+    def prog(e):
+        g, m = build(e, scale)
+        f = g.fields
+        f.update(type='GENER', _atmosphere_type=atm, atmosphere_volume=e.sym_real('atmvol', 0), atmosphere_connection=e.sym_real('atmcon', 0),
+                 gdcx=None, gdcy=None, cntype=None, permeability_angle=e.sym_real('angle'), filename='', read_function=None)
+        f['_block_order'] = order
+        e.call(e.get_function('mulgrids.mulgrid.set_block_order_int'), [g])
+        e.call(e.get_function('mulgrids.mulgrid.set_secondary_variables'), [g])
+        surf = e.sym_real('surf2')
+        e.assume(z3.And(surf > f['layerlist'][2].fields['bottom'], surf < f['layerlist'][0].fields['bottom']))   # one or two layers below it
+        e.call(e.get_function('mulgrids.mulgrid.set_default_surface'), [g])
+        e.setattr(f['columnlist'][1], 'surface', surf)
+        e.call(e.get_function('mulgrids.mulgrid.set_column_num_layers'), [g, f['columnlist'][1]])
+        e.call(e.get_function('mulgrids.mulgrid.setup_block_name_index'), [g])
+        e.call(e.get_function('mulgrids.mulgrid.setup_block_connection_name_index'), [g])
+        spec = m['mulgrid_format_specification']
+        tape = Tape(e, spec)
+        e.opaque['fixed_format_file'] = lambda eng, args, kwargs: tape.obj
+        e.call(e.get_function('mulgrids.mulgrid.write'), [g, 'g.dat'])
+        first = list(tape.recs)
+        h, _ = new_geo(e, 1)
+        h.fields.update(read_function=None, filename='', gdcx=None, gdcy=None, cntype=None, type=None, permeability_angle=0, atmosphere_volume=None, atmosphere_connection=None)
+        tape.rewind()
+        try:
+            e.call(e.get_function('mulgrids.mulgrid.read'), [h, 'g.dat'])
+        except PyExc as ex:
+            e.fail('post:read_accepts_what_write_produced' + tag, 'raises %s: %s' % (ex.cls, ex.msg))
+            return
+        e.prove(not tape.errors, 'post:read_accepts_what_write_produced' + tag)
+        hf = h.fields
+        hdr = all(_valid(e, L.equals(e, hf[k], f[k])) for k in ('_convention', '_atmosphere_type', 'atmosphere_volume', 'atmosphere_connection', 'permeability_angle', '_block_order_int'))
+        e.prove(hdr and hf['_unit_type'] == f['_unit_type'] and _valid(e, L.equals(e, hf['unit_scale'], scale)) and hf['_block_order'] == (order if order else hf['_block_order']),
+                'post:header_options_preserved' + tag)
+        e.prove(hf['block_name_list'] == f['block_name_list'] and hf['block_connection_name_list'] == f['block_connection_name_list'],
+                'post:derived_block_and_connection_name_lists_identical' + tag)
+        e.prove([c.fields['num_layers'] for c in hf['columnlist']] == [c.fields['num_layers'] for c in f['columnlist']], 'post:column_layer_counts_preserved' + tag)
+        e.prove(len(f['block_name_list']) >= 3 + (1 if atm == 0 else (2 if atm == 1 else 0)) and len(f['block_connection_name_list']) >= 2, 'cover:name_lists_are_not_empty' + tag)
+        compare_sections(e, g, h, tag)
+        tape2 = Tape(e, spec)
+        e.opaque['fixed_format_file'] = lambda eng, args, kwargs: tape2.obj
+        e.call(e.get_function('mulgrids.mulgrid.write'), [h, 'g2.dat'])
+        same = len(first) == len(tape2.recs)
+        if same:
+            for a, b in zip(first, tape2.recs):
+                same = same and a[0] == b[0] and a[1] == b[1] and (a[0] == 'raw' or (len(a[2]) == len(b[2]) and all(_valid(e, L.equals(e, x, y)) for x, y in zip(a[2], b[2]))))
+        e.prove(same, 'post:second_write_reproduces_the_first_record_for_record' + tag)
+    e.explore(prog, 'whole_file')
 
 
 def p_name_trip(e, length):
@@ -191,23 +252,26 @@ def o_tables(repo, arg, timeout_ms):
     return out
 
 
-PROGRAMS = [('p_sections', False), ('p_sections', True), ('p_name_trip', 2), ('p_name_trip', 3), ('o_tables', None)]
+PROGRAMS = [('p_whole_file', (False, 0, None)), ('p_whole_file', (True, 1, 'dmplex')), ('p_whole_file', (False, 2, 'layer_column')), ('p_sections', False), ('p_sections', True), ('p_name_trip', 2), ('p_name_trip', 3), ('o_tables', None)]
 
 
 def replay(obname, model, result):
-    if result['program'] == 'p_sections':
+    if result['program'] in ('p_sections', 'p_whole_file'):
         m = model or {}
         def fl(k, d):
             v = m.get(k)
             if isinstance(v, dict):
                 return float(int(v['num'])) / float(int(v['den']))
             return float(v) if v is not None else d
-        z0, b1, b2, sf = fl('z0', 100.), fl('b1', 95.), fl('b2', 88.), fl('surf', 98.5)
-        if not (b2 < b1 < sf < z0):
-            z0, b1, b2, sf = 100., 95., 88., 98.5
+        whole = result['program'] == 'p_whole_file'
+        z0, b1, b2, sf = fl('z0', 100.), fl('b1', 95.), fl('b2', 88.), fl('surf2' if whole else 'surf', 98.5)
+        if not (b2 < b1 < z0 and (b2 if whole else b1) < sf < z0):
+            z0, b1, b2, sf = 100., 95., 88., (93. if whole else 98.5)
+        atm, order = (result['arg'][1], result['arg'][2]) if whole else (0, None)
         return ("import os, tempfile, shutil\nimport numpy as np\nfrom mulgrids import *\n"
                 "feet = %r\n"
-                "geo = mulgrid().rectangular([10., 20.], [15.], [" + repr(z0 - b1) + ", " + repr(b1 - b2) + "], origin=[3., 4., " + repr(z0) + "])\n"
+                "feet = feet[0] if isinstance(feet, tuple) else feet\n"
+                "geo = mulgrid().rectangular([10., 20.], [15.], [" + repr(z0 - b1) + ", " + repr(b1 - b2) + "], origin=[3., 4., " + repr(z0) + "], atmos_type=" + repr(atm) + ", block_order=" + repr(order) + ")\n"
                 "geo.columnlist[1].centre = np.array([22., 9.5]); geo.columnlist[1].centre_specified = 1\n"
                 "geo.columnlist[1].surface = " + repr(sf) + "; geo.set_column_num_layers(geo.columnlist[1]); geo.setup_block_name_index(); geo.setup_block_connection_name_index()\n"
                 "geo.add_well(well('w   1', [np.array([5., 5., 100.]), np.array([6., 6., 90.])]))\n"
